@@ -139,13 +139,14 @@ def families(tier):
            "0 <= c1 <= %d" % NOPC, "b1 >= 0", "0 <= c2 <= %d" % NOPC, "b2 >= 0", "0 <= c3 <= %d" % NOPC, "b3 >= 0", "t1 >= 0", "t >= 0"]
     if not thorough:
         pre += ["t1 >= 4", "c3 == %d" % NOPC, "b3 == 0", "size <= 2", "b1 <= 1", "a2 <= 1", "c2 == %d" % NOPC, "b2 == 0",
-                "x3 == %d or (x2 <= 1 and 2 <= x3 <= 3) or (2 <= x2 <= 3 and x3 <= 1) or (x2 == 6 and x3 <= 1)" % NOPP, "a3 <= 1", "t == 0 or t >= 4", "rx == 0 or x2 >= 4"]
+                "x3 == %d or (x2 <= 1 and 2 <= x3 <= 3) or (2 <= x2 <= 3 and x3 <= 1) or (x2 == 6 and x3 <= 1) or (x2 == 4 and x3 == 4)" % NOPP, "a3 <= 1", "t == 0 or t >= 4", "rx == 0 or x2 >= 4"]
         parts = [p for p in parts_product(cb=(3,), x1=range(4), x2=range(NOPP + 1), rx=(0, 1))
                  if not ("rx == 1" in p and any(("x2 == %d" % k) in p for k in range(4)))]
         parts = refine(parts, ["x2 == 2", "x2 == 3", "x2 == 6"], "x3", (0, 1, NOPP))
+        parts = refine(parts, ["x2 == 4"], "x3", (4, NOPP))
     else:
         pre += ["t1 >= 4", "c3 == %d" % NOPC, "b3 == 0", "size <= 3", "b1 <= 1", "a2 <= 1", "b2 <= 1",
-                "x3 == %d or (x2 <= 1 and 2 <= x3 <= 3) or (2 <= x2 <= 3 and x3 <= 1) or (x2 == 6 and x3 <= 1)" % NOPP, "a3 <= 1", "t == 0 or t >= 4"]
+                "x3 == %d or (x2 <= 1 and 2 <= x3 <= 3) or (2 <= x2 <= 3 and x3 <= 1) or (x2 == 6 and x3 <= 1) or (x2 == 4 and x3 == 4)" % NOPP, "a3 <= 1", "t == 0 or t >= 4"]
         parts = refine(parts_product(cb=(1, 3), x1=range(4), x2=range(NOPP + 1), rx=(0, 1)), ["x2 == 0", "x2 == 1"], "c1", range(NOPC + 1))
     return [Family(name="gather", fn="tpl_gather", params=P, pre=pre, parts=parts,
                    twin_pre=["cb == 3", "x1 == 2", "x2 == 0", "x3 == %d" % NOPP, "rx == 0", "c1 == 0", "c2 == %d" % NOPC],
